@@ -320,3 +320,31 @@ Proof.
   split; [apply spell_bool_same_number|].
   split; [apply spell_float_refused | apply neighbour_component; exact Hinv].
 Qed.
+
+(* ------------------------------------------------------------------ *)
+(* Led: set_brightness with the brightness the Led already has          *)
+(* ------------------------------------------------------------------ *)
+Lemma led_own_brightness : forall s i sp, Inv_led s ->
+  Led.step s (Led.SetBrightness (resolve_led s (CCur i 0 sp))) = (s, [Lvl [Led.bright s]], Ok RNone).
+Proof.
+  intros s i sp [Hb Hl]. cbn [Led.step]. unfold resolve_led. rewrite Z.add_0_r.
+  assert (Hself : LedP.lit_of (Led.pin s) (Led.bright s) = s).
+  { unfold LedP.lit_of. rewrite <- Hl. destruct s; reflexivity. }
+  assert (Hq0 : 0 <= inject_Z (Led.bright s)).
+  { change 0 with (inject_Z 0). rewrite <- Zle_Qle. lia. }
+  assert (Hq1 : inject_Z (Led.bright s) <= 255).
+  { change 255 with (inject_Z 255). rewrite <- Zle_Qle. lia. }
+  destruct sp; unfold spell.
+  - rewrite (LedP.sb_ok _ _ (LedP.between_PI _ Hb)). cbn [zval]. rewrite Hself. reflexivity.
+  - destruct (Led.bright s =? 0)%Z eqn:E0.
+    + apply Z.eqb_eq in E0. rewrite LedP.sb_ok by reflexivity. cbn [zval b2z].
+      rewrite <- E0 at 1 2. rewrite Hself. reflexivity.
+    + destruct (Led.bright s =? 1)%Z eqn:E1.
+      * apply Z.eqb_eq in E1. rewrite LedP.sb_ok by reflexivity. cbn [zval b2z].
+        rewrite <- E1 at 1 2. rewrite Hself. reflexivity.
+      * rewrite (LedP.sb_ok _ _ (LedP.between_PI _ Hb)). cbn [zval]. rewrite Hself. reflexivity.
+  - rewrite (LedP.sb_ok _ _ (LedP.between_PF _ Hq0 Hq1)).
+    assert (Ez : zval (PF (inject_Z (Led.bright s))) = Led.bright s).
+    { cbn [zval]. unfold py_int_trunc, inject_Z. cbn [Qnum Qden]. apply Z.quot_1_r. }
+    rewrite Ez, Hself. reflexivity.
+Qed.
